@@ -320,6 +320,26 @@ func (c *Ctx) eval(sx *SX) Value {
 		v := c.eval(args[0])
 		c.useOld = saved
 		return v
+	case "outer":
+		// evaluate in the context of the enclosing loop (names of the outer loop's header variables)
+		if c.loop == nil || c.loop.parent == nil {
+			c.fail("outer: no enclosing loop")
+		}
+		saved, savedOv := c.loop, c.phiOv
+		c.loop, c.phiOv = c.loop.parent, nil
+		v := c.eval(args[0])
+		c.loop, c.phiOv = saved, savedOv
+		return v
+	case "hdr":
+		// value of an expression in the state at the header of the enclosing cut loop
+		if c.loop == nil || c.ex.hdrState[c.loop] == nil {
+			c.fail("hdr outside a cut loop")
+		}
+		savedSt, savedOv, savedEnv := c.st, c.phiOv, c.envOv
+		c.st, c.phiOv, c.envOv = c.ex.hdrState[c.loop], c.ex.hdrPhis[c.loop], map[ssa.Value]Value{}
+		v := c.eval(args[0])
+		c.st, c.phiOv, c.envOv = savedSt, savedOv, savedEnv
+		return v
 	case "forall", "exists":
 		// (forall ((x S) ...) body)
 		nb := map[string]*Term{}
@@ -421,10 +441,22 @@ func (c *Ctx) eval(sx *SX) Value {
 		s := c.evalT(args[0])
 		lo, hi := c.evalT(args[1]), c.evalT(args[2])
 		return mkStr(strArr(s), IAdd(strOff(s), lo), ISub(hi, lo))
+	case "same-str":
+		// structural identity: the same window of the same byte array
+		a, b := c.evalT(args[0]), c.evalT(args[1])
+		return And(Eq(strArr(a), strArr(b)), Eq(strOff(a), strOff(b)), Eq(strLen(a), strLen(b)))
 	case "str=":
 		return strEq(c.evalT(args[0]), c.evalT(args[1]))
 	case "isnil":
-		v := c.eval(args[0])
+		var v Value
+		if !args[0].IsL {
+			if raw, ok := c.lookupName(args[0].Atom); ok {
+				v = raw
+			}
+		}
+		if v == nil {
+			v = c.eval(args[0])
+		}
 		switch x := v.(type) {
 		case *NilV:
 			return True
@@ -448,7 +480,15 @@ func (c *Ctx) eval(sx *SX) Value {
 		}
 		c.fail("isnil of %s", describeValue(v))
 	case "deref":
-		v := c.eval(args[0])
+		var v Value
+		if !args[0].IsL {
+			if raw, ok := c.lookupName(args[0].Atom); ok {
+				v = raw
+			}
+		}
+		if v == nil {
+			v = c.eval(args[0])
+		}
 		return mapCond(v, func(v Value) Value {
 			if _, ok := v.(*NilV); ok {
 				return zeroValue(c.fn.Signature.Results().At(0).Type().(*types.Pointer).Elem())
